@@ -16,10 +16,15 @@ TB_STATE = [
 
 
 def sample(run, items, n):
+    """stratified: every `file` task of the product is kept (the smallest stratum), the rest is sampled"""
     items = list(items)
     if len(items) <= n:
         return items
-    return run.rng.sample(items, n)
+    keep = [x for x in items if isinstance(x, tuple) and len(x) == 2 and isinstance(x[1], dict) and x[1].get("kind") == "file"]
+    rest = [x for x in items if not (isinstance(x, tuple) and len(x) == 2 and isinstance(x[1], dict) and x[1].get("kind") == "file")]
+    if len(keep) >= n or not keep:
+        return run.rng.sample(items, n)
+    return keep + run.rng.sample(rest, min(len(rest), n - len(keep)))
 
 
 # ---------------------------------------------------------------- pacman cases
